@@ -41,19 +41,10 @@ Proof. intros A [a|k|s]; cbn; intros; try discriminate; eauto. Qed.
 (* strip_quotes                                                                                 *)
 (* ------------------------------------------------------------------------------------------- *)
 
-Lemma strip_quotes_panic : forall s, is_panic (strip_quotes s) = bad_quoted s.
-Proof.
-  intros s. unfold strip_quotes, bad_quoted.
-  destruct (starts_with_quote s); cbn [andb]; [|reflexivity].
-  destruct (Nat.ltb (length s) 2); cbn [orb]; [reflexivity|].
-  destruct (is_char_boundary s 1 && is_char_boundary s (length s - 1)); reflexivity.
-Qed.
-
 Lemma strip_quotes_never_err : forall s k, strip_quotes s <> Err k.
 Proof.
   intros s k. unfold strip_quotes.
-  destruct (starts_with_quote s); [|discriminate].
-  destruct (Nat.ltb (length s) 2); [discriminate|].
+  destruct (quoted_by 96 s || quoted_by 34 s); [|discriminate].
   destruct (is_char_boundary s 1 && is_char_boundary s (length s - 1)); discriminate.
 Qed.
 
@@ -62,25 +53,85 @@ Proof.
   intros A l. rewrite removelast_firstn_len. f_equal. lia.
 Qed.
 
-(* when strip_quotes returns, it returns the text without its first and last byte (quoted text) or
-   the text itself *)
+(* when strip_quotes returns, it returns the text without its first and last byte (text enclosed in
+   a matching pair of quote characters) or the text itself *)
 Lemma strip_quotes_val : forall s r, strip_quotes s = Val r -> r = unquoted s.
 Proof.
   intros s r. unfold strip_quotes, unquoted.
-  destruct (starts_with_quote s) eqn:Q.
-  - destruct (Nat.ltb (length s) 2) eqn:L; [discriminate|].
-    destruct (is_char_boundary s 1 && is_char_boundary s (length s - 1)); [|discriminate].
+  destruct (quoted_by 96 s || quoted_by 34 s) eqn:Q.
+  - destruct (is_char_boundary s 1 && is_char_boundary s (length s - 1)); [|discriminate].
     intro H. injection H as <-.
-    destruct s as [|b t]; [discriminate|].
+    destruct s as [|b t]; [cbn in Q; discriminate|].
     cbn [skipn tl length]. rewrite <- firstn_pred_removelast.
     replace (S (length t) - 2)%nat with (length t - 1)%nat by lia. reflexivity.
   - intro H. injection H as <-. reflexivity.
 Qed.
 
-Lemma strip_quotes_is_val : forall s, is_val (strip_quotes s) = negb (bad_quoted s).
+Lemma last_byte_nth : forall s, s <> [] -> last_byte s = nth_error s (length s - 1).
 Proof.
-  intros s. rewrite <- strip_quotes_panic.
-  destruct (strip_quotes s) eqn:E; cbn; try reflexivity.
+  induction s as [|b r IH]; intro H; [contradiction|].
+  destruct r as [|c r']; [reflexivity|].
+  change (last_byte (b :: c :: r')) with (last_byte (c :: r')).
+  rewrite IH by discriminate. cbn [length]. replace (S (S (length r')) - 1)%nat with (S (length r')) by lia.
+  cbn [nth_error]. f_equal. lia.
+Qed.
+
+(* in valid UTF-8 a byte that starts a character is never a continuation byte *)
+Lemma valid_utf8_head : forall c r, valid_utf8 (c :: r) = true -> (c <? 128) || (192 <=? c) = true.
+Proof.
+  intros c r H. cbn [valid_utf8] in H.
+  destruct (N.ltb_spec c 128) as [L|L]; [reflexivity|]. cbn [orb].
+  destruct (N.leb_spec 192 c) as [G|G]; [reflexivity|].
+  exfalso.
+  destruct (N.leb_spec 194 c); cbn [andb] in H; [lia|].
+  destruct (N.leb_spec 224 c); cbn [andb] in H; [lia|].
+  destruct (N.leb_spec 240 c); cbn [andb] in H; [lia|]. discriminate.
+Qed.
+
+Lemma quoted_boundaries : forall q s, q < 128 -> valid_utf8 s = true -> quoted_by q s = true ->
+  is_char_boundary s 1 && is_char_boundary s (length s - 1) = true.
+Proof.
+  intros q s Hq V Q. unfold quoted_by in Q.
+  apply andb_true_iff in Q as [Q Hl]. apply andb_true_iff in Q as [Hn Hf].
+  apply PeanoNat.Nat.leb_le in Hn.
+  destruct s as [|b r]; [discriminate|]. apply N.eqb_eq in Hf. subst b.
+  destruct r as [|c r']; [cbn in Hn; lia|].
+  assert (Vr : valid_utf8 (c :: r') = true).
+  { cbn [valid_utf8] in V. destruct (N.ltb_spec q 128); [exact V|lia]. }
+  apply andb_true_iff. split.
+  - (* index 1 follows the one-byte quote character *)
+    unfold is_char_boundary. cbn [length].
+    destruct (Nat.compare 1 (S (S (length r')))) eqn:C.
+    + reflexivity.
+    + cbn [nth_error]. apply valid_utf8_head in Vr. exact Vr.
+    + apply PeanoNat.Nat.compare_gt_iff in C. lia.
+  - (* index len-1 is the closing quote character itself *)
+    unfold is_char_boundary. cbn [length].
+    replace (S (S (length r')) - 1)%nat with (S (length r')) by lia.
+    destruct (Nat.compare (S (length r')) (S (S (length r')))) eqn:C.
+    + reflexivity.
+    + rewrite last_byte_nth in Hl by discriminate. cbn [length] in Hl.
+      replace (S (S (length r')) - 1)%nat with (S (length r')) in Hl by lia.
+      destruct (nth_error (q :: c :: r') (S (length r'))) as [x|]; [|discriminate].
+      apply N.eqb_eq in Hl. subst x.
+      destruct (N.ltb_spec q 128); [reflexivity|lia].
+    + apply PeanoNat.Nat.compare_gt_iff in C. lia.
+Qed.
+
+(* strip_quotes never panics on a valid str (the matching quotes are one-byte characters) *)
+Lemma strip_quotes_not_panic : forall s, valid_utf8 s = true -> is_panic (strip_quotes s) = false.
+Proof.
+  intros s V. unfold strip_quotes.
+  destruct (quoted_by 96 s) eqn:Q1; cbn [orb].
+  - rewrite (quoted_boundaries 96 s) by (try reflexivity; assumption). reflexivity.
+  - destruct (quoted_by 34 s) eqn:Q2; [|reflexivity].
+    rewrite (quoted_boundaries 34 s) by (try reflexivity; assumption). reflexivity.
+Qed.
+
+Lemma strip_quotes_is_val : forall s, valid_utf8 s = true -> is_val (strip_quotes s) = true.
+Proof.
+  intros s V. pose proof (strip_quotes_not_panic s V) as P.
+  destruct (strip_quotes s) eqn:E; cbn in *; try reflexivity; try discriminate.
   exfalso. eapply strip_quotes_never_err; eauto.
 Qed.
 
@@ -93,31 +144,30 @@ Proof. destruct o; reflexivity. Qed.
 Lemma map_unary_not_panic : forall o, is_panic (map_unary_operator o) = false.
 Proof. destruct o; reflexivity. Qed.
 
-Lemma get_raw_val_panic : forall v, is_panic (get_raw_val v) = bad_number v.
+Lemma get_raw_val_panic : forall v, is_panic (get_raw_val v) = negb (number_ok v).
 Proof.
   destruct v as [t f| | |]; cbn; try reflexivity.
   destruct (parse_i64 t); cbn; [reflexivity|]. destruct f; reflexivity.
 Qed.
 
 Lemma convert_not_panic :
-  forall e, expr_bad e = false -> is_panic (convert_expr e) = false.
+  forall e, expr_wf e = true -> is_panic (convert_expr e) = false.
 Proof.
   apply (expr_mind
-    (fun e => expr_bad e = false -> is_panic (convert_expr e) = false)
-    (fun a => farg_bad a = false -> is_panic (convert_farg a) = false)
-    (fun a => fargs_bad a = false ->
+    (fun e => expr_wf e = true -> is_panic (convert_expr e) = false)
+    (fun a => farg_wf a = true -> is_panic (convert_farg a) = false)
+    (fun a => fargs_wf a = true ->
        (forall x, a = FList1 x -> is_panic (convert_farg x) = false) /\
        (forall x y, a = FList2 x y -> is_panic (convert_farg x) = false /\ is_panic (convert_farg y) = false))).
-  - (* EBinary *) intros op l IHl r IHr H. cbn in H. apply orb_false_iff in H as [Hl Hr].
+  - (* EBinary *) intros op l IHl r IHr H. cbn in H. apply andb_true_iff in H as [Hl Hr].
     cbn [convert_expr]. apply bind_not_panic; [apply map_binary_not_panic|]. intros f _.
     apply bind_not_panic; [auto|]. intros a _. apply bind_not_panic; [auto|]. reflexivity.
   - (* EUnary *) intros op x IH H. cbn in H. cbn [convert_expr].
     apply bind_not_panic; [apply map_unary_not_panic|]. intros f _.
     apply bind_not_panic; [auto|]. reflexivity.
   - (* EValue *) intros v H. cbn in H. cbn [convert_expr].
-    apply bind_not_panic; [rewrite get_raw_val_panic; exact H|]. reflexivity.
-  - (* EIdent *) intros v H. cbn in H. cbn [convert_expr].
-    apply bind_not_panic; [rewrite strip_quotes_panic; exact H|]. reflexivity.
+    apply bind_not_panic; [rewrite get_raw_val_panic, H; reflexivity|]. reflexivity.
+  - (* EIdent *) intros v H. reflexivity.
   - (* ENested *) intros x IH H. cbn in H. cbn [convert_expr]. auto.
   - (* EFunction *) intros name args IH H. cbn in H. destruct (IH H) as [H1 H2].
     assert (Hone : forall mk : nexpr -> nexpr,
@@ -135,7 +185,7 @@ Proof.
     apply bind_not_panic; [auto|]. reflexivity.
   - (* EIsNotNull *) intros x IH H. cbn in H. cbn [convert_expr].
     apply bind_not_panic; [auto|]. reflexivity.
-  - (* ELike *) intros neg x IHx p IHp esc H. cbn in H. apply orb_false_iff in H as [Hx Hp].
+  - (* ELike *) intros neg x IHx p IHp esc H. cbn in H. apply andb_true_iff in H as [Hx Hp].
     cbn [convert_expr]. destruct esc; [reflexivity|].
     apply bind_not_panic; [auto|]. intros a _. apply bind_not_panic; [auto|]. reflexivity.
   - (* EFloor *) intros x IH H. cbn in H. cbn [convert_expr].
@@ -151,7 +201,7 @@ Proof.
   - (* FList1 *) intros a IH H. cbn in H. split.
     + intros x E. injection E as <-. auto.
     + intros; discriminate.
-  - (* FList2 *) intros a IHa b IHb H. cbn in H. apply orb_false_iff in H as [Ha Hb]. split.
+  - (* FList2 *) intros a IHa b IHb H. cbn in H. apply andb_true_iff in H as [Ha Hb]. split.
     + intros; discriminate.
     + intros x y E. injection E as <- <-. auto.
   - intros n _. split; intros; discriminate.
@@ -168,18 +218,18 @@ Proof.
   intros A B [a|k|s] f b H; cbn; auto.
 Qed.
 
-(* outside the panic class, an expression converts iff it is in the supported grammar *)
+(* an expression converts iff it is in the supported grammar *)
 Lemma convert_is_val :
-  forall e, expr_bad e = false -> is_val (convert_expr e) = expr_supported e.
+  forall e, expr_wf e = true -> is_val (convert_expr e) = expr_supported e.
 Proof.
   apply (expr_mind
-    (fun e => expr_bad e = false -> is_val (convert_expr e) = expr_supported e)
-    (fun a => farg_bad a = false -> is_val (convert_farg a) = farg_supported a)
-    (fun a => fargs_bad a = false ->
+    (fun e => expr_wf e = true -> is_val (convert_expr e) = expr_supported e)
+    (fun a => farg_wf a = true -> is_val (convert_farg a) = farg_supported a)
+    (fun a => fargs_wf a = true ->
        (forall x, a = FList1 x -> is_val (convert_farg x) = farg_supported x) /\
        (forall x y, a = FList2 x y -> is_val (convert_farg x) = farg_supported x /\
                                       is_val (convert_farg y) = farg_supported y))).
-  - intros op l IHl r IHr H. cbn in H. apply orb_false_iff in H as [Hl Hr].
+  - intros op l IHl r IHr H. cbn in H. apply andb_true_iff in H as [Hl Hr].
     cbn [convert_expr expr_supported].
     rewrite (is_val_bind2 _ _ _ _ (expr_supported l && expr_supported r)).
     + rewrite map_binary_is_val. now rewrite andb_assoc.
@@ -193,9 +243,7 @@ Proof.
   - intros v H. cbn in H. cbn [convert_expr expr_supported].
     destruct v as [t f| | |]; cbn; try reflexivity.
     cbn in H. destruct (parse_i64 t); cbn in *; [reflexivity|]. destruct f; cbn in *; [reflexivity|discriminate].
-  - intros v H. cbn in H. cbn [convert_expr expr_supported].
-    rewrite (is_val_bind2 _ _ _ _ true); [|reflexivity].
-    rewrite strip_quotes_is_val, H. reflexivity.
+  - intros v H. reflexivity.
   - intros x IH H. cbn in H. cbn [convert_expr expr_supported]. auto.
   - intros name args IH H. cbn in H. destruct (IH H) as [H1 H2].
     assert (Hone : forall mk : nexpr -> nexpr,
@@ -217,7 +265,7 @@ Proof.
     rewrite (is_val_bind2 _ _ _ _ true); [rewrite IH by assumption; apply andb_true_r|reflexivity].
   - intros x IH H. cbn in H. cbn [convert_expr expr_supported].
     rewrite (is_val_bind2 _ _ _ _ true); [rewrite IH by assumption; apply andb_true_r|reflexivity].
-  - intros neg x IHx p IHp esc H. cbn in H. apply orb_false_iff in H as [Hx Hp].
+  - intros neg x IHx p IHp esc H. cbn in H. apply andb_true_iff in H as [Hx Hp].
     cbn [convert_expr expr_supported]. destruct esc; [reflexivity|]. cbn [negb andb].
     rewrite (is_val_bind2 _ _ _ _ (expr_supported p)).
     + now rewrite IHx.
@@ -235,7 +283,7 @@ Proof.
   - intros a IH H. cbn in H. split.
     + intros x E. injection E as <-. auto.
     + intros; discriminate.
-  - intros a IHa b IHb H. cbn in H. apply orb_false_iff in H as [Ha Hb]. split.
+  - intros a IHa b IHb H. cbn in H. apply andb_true_iff in H as [Ha Hb]. split.
     + intros; discriminate.
     + intros x y E. injection E as <- <-. auto.
   - intros n _. split; intros; discriminate.
@@ -295,41 +343,42 @@ Proof.
   destruct lc; reflexivity.
 Qed.
 
-Lemma item_not_panic : forall it, item_bad it = false -> is_panic (convert_item it) = false.
+Lemma item_not_panic : forall it, item_wf it = true -> is_panic (convert_item it) = false.
 Proof.
   intros [e d|e a| |] H; cbn in *; try reflexivity;
-    apply orb_false_iff in H as [He Hq];
+    apply andb_true_iff in H as [He Hq];
     (apply bind_not_panic; [apply convert_not_panic; exact He|]); intros x _;
-    (apply bind_not_panic; [rewrite strip_quotes_panic; exact Hq|]); reflexivity.
+    (apply bind_not_panic; [apply strip_quotes_not_panic; exact Hq|]); reflexivity.
 Qed.
 
-Lemma projection_not_panic : forall l, existsb item_bad l = false -> is_panic (get_projection l) = false.
+Lemma projection_not_panic : forall l, forallb item_wf l = true -> is_panic (get_projection l) = false.
 Proof.
   induction l as [|it r IH]; intro H; [reflexivity|].
-  cbn in H. apply orb_false_iff in H as [Hi Hr]. cbn [get_projection].
+  cbn in H. apply andb_true_iff in H as [Hi Hr]. cbn [get_projection].
   apply bind_not_panic; [apply item_not_panic; exact Hi|]. intros c _.
   apply bind_not_panic; [auto|]. reflexivity.
 Qed.
 
-Lemma order_list_not_panic : forall l, existsb (fun p => expr_bad (fst p)) l = false ->
+Lemma order_list_not_panic : forall l, forallb (fun p => expr_wf (fst p)) l = true ->
   is_panic (get_order_by_list l) = false.
 Proof.
   induction l as [|[e asc] r IH]; intro H; [reflexivity|].
-  cbn in H. apply orb_false_iff in H as [He Hr]. cbn [get_order_by_list].
+  cbn in H. apply andb_true_iff in H as [He Hr]. cbn [get_order_by_list].
   apply bind_not_panic; [apply convert_not_panic; exact He|]. intros x _.
   apply bind_not_panic; [auto|]. reflexivity.
 Qed.
 
-Lemma limit_not_panic : forall l, count_bad l = false -> is_panic (get_limit l) = false.
+(* LIMIT / OFFSET never panic: a literal that is not a u64 is a ParseError (fix 88d707c) *)
+Lemma limit_not_panic : forall l, is_panic (get_limit l) = false.
 Proof.
-  intros [e|] H; [|reflexivity]. destruct e; try reflexivity. destruct v; try reflexivity.
-  cbn in *. destruct (parse_u64 text); [reflexivity|discriminate].
+  intros [e|]; [|reflexivity]. destruct e; try reflexivity. destruct v; try reflexivity.
+  cbn. destruct (parse_u64 text); reflexivity.
 Qed.
 
-Lemma offset_not_panic : forall l, count_bad l = false -> is_panic (get_offset l) = false.
+Lemma offset_not_panic : forall l, is_panic (get_offset l) = false.
 Proof.
-  intros [e|] H; [|reflexivity]. destruct e; try reflexivity. destruct v; try reflexivity.
-  cbn in *. destruct (parse_u64 text); [reflexivity|discriminate].
+  intros [e|]; [|reflexivity]. destruct e; try reflexivity. destruct v; try reflexivity.
+  cbn. destruct (parse_u64 text); reflexivity.
 Qed.
 
 Lemma components_fields : forall s ob lc c, get_query_components (BdSelect s) ob lc = Val c ->
@@ -349,24 +398,26 @@ Proof.
   destruct lc; intro H; injection H as <-; cbn; repeat split; auto.
 Qed.
 
-(* guarded totality: outside the known panic class the conversion never panics *)
-Lemma parse_query_not_panic : forall p, known_panic_class p = false -> is_panic (parse_query p) = false.
+(* totality: on everything the parser can hand over, the conversion never panics *)
+Lemma parse_query_not_panic : forall p, parser_output p = true -> is_panic (parse_query p) = false.
 Proof.
   intros [| |stmts] H; try reflexivity.
   cbn [parse_query]. destruct (Nat.ltb 1 (length stmts)) eqn:L; [reflexivity|].
-  destruct stmts as [|st rest]; [discriminate H|].
+  destruct stmts as [|st rest]; [reflexivity|].
   destruct rest as [|st2 rest]; [|cbn in L; discriminate].
   destruct st as [b ob lc|]; [|reflexivity].
   apply bind_not_panic; [apply components_not_panic|]. intros c Hc.
   destruct b as [s|]; [|discriminate].
-  cbn in H. repeat (apply orb_false_iff in H as [H ?]).
+  cbn in H. rewrite andb_true_r in H.
+  apply andb_true_iff in H as [H Hord]. apply andb_true_iff in H as [H Hsel].
+  apply andb_true_iff in H as [Hitems Hrel].
   destruct (components_fields _ _ _ _ Hc) as (Ep & Es & Er & Eo & Elo & Hlen).
   apply bind_not_panic; [rewrite Ep; apply projection_not_panic; assumption|]. intros pr _.
   apply bind_not_panic.
   { rewrite Er. destruct (s_from s) as [|f fr]; [reflexivity|].
-    match goal with Hx : existsb relation_bad _ = false |- _ => cbn in Hx; apply orb_false_iff in Hx as [Hx _] end.
-    unfold relation_bad in *. destruct (fi_relation f); [|reflexivity].
-    cbn. rewrite strip_quotes_panic. assumption. }
+    cbn in Hrel. apply andb_true_iff in Hrel as [Hf _].
+    unfold relation_wf in Hf. destruct (fi_relation f); [|reflexivity].
+    cbn. apply strip_quotes_not_panic. assumption. }
   intros tb _.
   apply bind_not_panic.
   { rewrite Es. destruct (s_selection s); [|reflexivity]. apply convert_not_panic. assumption. }
@@ -374,12 +425,8 @@ Proof.
   apply bind_not_panic.
   { rewrite Eo. destruct ob; try reflexivity. cbn. apply order_list_not_panic. assumption. }
   intros od _.
-  assert (Hl : count_bad (c_limit c) = false /\ count_bad (c_offset c) = false).
-  { destruct lc; cbn in Elo; injection Elo as -> ->; try (split; reflexivity).
-    match goal with Hx : limit_bad _ = false |- _ => cbn in Hx; apply orb_false_iff in Hx; exact Hx end. }
-  destruct Hl as [Hl Ho].
-  apply bind_not_panic; [apply limit_not_panic; exact Hl|]. intros lv _.
-  apply bind_not_panic; [apply offset_not_panic; exact Ho|]. reflexivity.
+  apply bind_not_panic; [apply limit_not_panic|]. intros lv _.
+  apply bind_not_panic; [apply offset_not_panic|]. reflexivity.
 Qed.
 
 (* ------------------------------------------------------------------------------------------- *)
@@ -425,46 +472,52 @@ Proof. split; reflexivity. Qed.
 (* acceptance = supported grammar (whole query)                                                 *)
 (* ------------------------------------------------------------------------------------------- *)
 
-Lemma item_is_val : forall it, item_bad it = false -> is_val (convert_item it) = item_supported it.
+Lemma item_is_val : forall it, item_wf it = true -> is_val (convert_item it) = item_supported it.
 Proof.
   intros [e d|e a| |] H; cbn in *; try reflexivity;
-    apply orb_false_iff in H as [He Hq];
+    apply andb_true_iff in H as [He Hq];
     rewrite (is_val_bind2 _ _ _ _ true);
     try (rewrite convert_is_val by assumption; apply andb_true_r);
     intros x _; rewrite (is_val_bind2 _ _ _ _ true); try reflexivity;
-    rewrite strip_quotes_is_val, Hq; reflexivity.
+    rewrite strip_quotes_is_val by assumption; reflexivity.
 Qed.
 
-Lemma projection_is_val : forall l, existsb item_bad l = false ->
+Lemma projection_is_val : forall l, forallb item_wf l = true ->
   is_val (get_projection l) = forallb item_supported l.
 Proof.
   induction l as [|it r IH]; intro H; [reflexivity|].
-  cbn in H. apply orb_false_iff in H as [Hi Hr]. cbn [get_projection forallb].
+  cbn in H. apply andb_true_iff in H as [Hi Hr]. cbn [get_projection forallb].
   rewrite (is_val_bind2 _ _ _ _ (forallb item_supported r)).
   - now rewrite item_is_val.
   - intros c _. rewrite (is_val_bind2 _ _ _ _ true); [rewrite IH by assumption; apply andb_true_r|reflexivity].
 Qed.
 
-Lemma order_list_is_val : forall l, existsb (fun p => expr_bad (fst p)) l = false ->
+Lemma order_list_is_val : forall l, forallb (fun p => expr_wf (fst p)) l = true ->
   is_val (get_order_by_list l) = forallb (fun p => expr_supported (fst p)) l.
 Proof.
   induction l as [|[e asc] r IH]; intro H; [reflexivity|].
-  cbn in H. apply orb_false_iff in H as [He Hr]. cbn [get_order_by_list forallb fst].
+  cbn in H. apply andb_true_iff in H as [He Hr]. cbn [get_order_by_list forallb fst].
   rewrite (is_val_bind2 _ _ _ _ (forallb (fun p => expr_supported (fst p)) r)).
   - now rewrite convert_is_val.
   - intros c _. rewrite (is_val_bind2 _ _ _ _ true); [rewrite IH by assumption; apply andb_true_r|reflexivity].
 Qed.
 
-Lemma limit_is_val : forall l, count_bad l = false -> is_val (get_limit l) = count_supported l.
+Lemma limit_is_val : forall l, is_val (get_limit l) = count_supported l.
 Proof.
-  intros [e|] H; [|reflexivity]. destruct e; try reflexivity. destruct v; try reflexivity.
-  cbn in *. destruct (parse_u64 text); [reflexivity|discriminate].
+  intros [e|]; [|reflexivity]. destruct e; try reflexivity. destruct v; try reflexivity.
+  cbn. destruct (parse_u64 text); reflexivity.
 Qed.
-Lemma offset_is_val : forall l, count_bad l = false -> is_val (get_offset l) = count_supported l.
+Lemma offset_is_val : forall l, is_val (get_offset l) = count_supported l.
 Proof.
-  intros [e|] H; [|reflexivity]. destruct e; try reflexivity. destruct v; try reflexivity.
-  cbn in *. destruct (parse_u64 text); [reflexivity|discriminate].
+  intros [e|]; [|reflexivity]. destruct e; try reflexivity. destruct v; try reflexivity.
+  cbn. destruct (parse_u64 text); reflexivity.
 Qed.
+
+(* a LIMIT / OFFSET literal that is not a u64 is a ParseError *)
+Lemma limit_literal_err : forall text f, parse_u64 text = None ->
+  get_limit (Some (EValue (VNumber text f))) = Err ParseError /\
+  get_offset (Some (EValue (VNumber text f))) = Err ParseError.
+Proof. intros text f H. cbn. rewrite H. split; reflexivity. Qed.
 
 (* names of a converted projection *)
 Lemma projection_names : forall l cs, get_projection l = Val cs ->
